@@ -477,6 +477,34 @@ class HasNode(_OverDegree):
         self.unchanged(ctx, c, 'has_node')
 
 
+def has_node_symbol(ctx, g):
+    """HN(u, t): `u is in G and some interaction of u is present at t` - the verified postcondition of has_node(u, t), kept as one
+    uninterpreted predicate per graph state on the caller side (callers of has_node never need to unfold it)"""
+    from pyvc.sym import fresh_fun
+    key = ('HN', g.name, tuple(g[c_].get_id() for c_ in sorted(g.comp_names()) if c_.startswith('Cell_') or c_ in ('S', 'E', 'Len', 'NodeIn', 'SKey')))
+    cache = ctx.__dict__.setdefault('_hn', {})
+    if key not in cache:
+        cache[key] = fresh_fun('HN', Node, Int, Bool)
+        ctx.notes.append('has_node(u, t) by its verified contract (C02): an opaque predicate HN(u, t) of the graph state on the caller side')
+    return cache[key]
+
+
+def _has_node_apply(self, interp, g, argv, kwv):
+    args = dict(zip(['n', 't'], argv))
+    args.update(kwv)
+    n, t = args['n'], args.get('t', VNone)
+    if n.kind != 'node':
+        raise Undecided('has_node called with a %s' % n.kind)
+    if t.kind == 'none':
+        return VBool(g['NodeIn'][n.z])
+    if t.kind != 'int':
+        raise Undecided('has_node called with t of kind %s' % t.kind)
+    return VBool(has_node_symbol(interp.ctx, g)(n.z, t.z))
+
+
+HasNode.apply = _has_node_apply
+
+
 class NodesAt(_OverDegree):
     """nodes(t) / nodes_iter(t) (data False)   ensures  the nodes with an interaction present at t (t None: all nodes), each once"""
 
